@@ -126,6 +126,7 @@ typedef struct {
     struct scanner_s *scanner;   /* not available: the scanner lives on cif_parse_internal's stack */
     obuf log; obuf errs;
     int first;
+    cif_loop_tp *cur_loop;  /* walking: the loop whose packets are being presented */
     int stop_seen;      /* a handler has answered END or a positive code */
     int bad_after_stop; /* handler callbacks delivered after that */
 } pctx;
@@ -169,6 +170,11 @@ static void log_container(pctx *c, const char *ev, cif_container_tp *h) {
         if (code) free(code);
     }
     ob_putc(&c->log, ']');
+    /* walking a managed CIF: the handle must answer queries as what it is presented as (a block is a block, a frame is not) */
+    if (h && !c->in_parse) {
+        int rc = cif_container_assert_block(h), want_block = (ev[0] == 'b');
+        if ((rc == CIF_OK) != want_block) ob_printf(&c->log, ",[\"bad-handle\",\"%s: cif_container_assert_block answers %d\"]", ev, rc);
+    }
 }
 static int h_cif_start(cif_tp *cif, void *d) { pctx *c = d; if (c->log_handlers) { log_sep(c); ob_printf(&c->log, "[\"cif_start\",%d]", cif != NULL); } return respond(c); }
 static int h_cif_end(cif_tp *cif, void *d) { pctx *c = d; if (c->log_handlers) { log_sep(c); ob_printf(&c->log, "[\"cif_end\",%d]", cif != NULL); } return respond(c); }
@@ -199,16 +205,25 @@ static void log_loop(pctx *c, const char *ev, cif_loop_tp *l) {
     }
     ob_putc(&c->log, ']');
 }
-static int h_loop_start(cif_loop_tp *l, void *d) { pctx *c = d; if (c->log_handlers) log_loop(c, "loop_start", l); return respond(c); }
-static int h_loop_end(cif_loop_tp *l, void *d) { pctx *c = d; if (c->log_handlers) log_loop(c, "loop_end", l); return respond(c); }
+static int h_loop_start(cif_loop_tp *l, void *d) { pctx *c = d; c->cur_loop = c->in_parse ? NULL : l; if (c->log_handlers) log_loop(c, "loop_start", l); return respond(c); }
+static int h_loop_end(cif_loop_tp *l, void *d) { pctx *c = d; c->cur_loop = NULL; if (c->log_handlers) log_loop(c, "loop_end", l); return respond(c); }
+/* while its packets are presented the loop handle received in loop_start is still valid for queries */
+static void query_cur_loop(pctx *c, const char *ev) {
+    if (c->cur_loop && c->log_handlers) {
+        UChar **names = NULL; int rc = cif_loop_get_names(c->cur_loop, &names), i;
+        if (rc == CIF_OK) { for (i = 0; names[i]; i++) free(names[i]); free(names); }
+        else { log_sep(c); ob_printf(&c->log, "[\"bad-query\",\"%s: cif_loop_get_names on the loop being walked answers %d\"]", ev, rc); }
+    }
+}
 static void log_packet(pctx *c, const char *ev, cif_packet_tp *p) {
     log_sep(c); ob_printf(&c->log, "[\"%s\",", ev); dump_packet(&c->log, p); ob_putc(&c->log, ']');
 }
-static int h_packet_start(cif_packet_tp *p, void *d) { pctx *c = d; if (c->log_handlers) log_packet(c, "packet_start", p); return respond(c); }
-static int h_packet_end(cif_packet_tp *p, void *d) { pctx *c = d; if (c->log_handlers) log_packet(c, "packet_end", p); return respond(c); }
+static int h_packet_start(cif_packet_tp *p, void *d) { pctx *c = d; if (c->log_handlers) log_packet(c, "packet_start", p); query_cur_loop(c, "packet_start"); return respond(c); }
+static int h_packet_end(cif_packet_tp *p, void *d) { pctx *c = d; if (c->log_handlers) log_packet(c, "packet_end", p); query_cur_loop(c, "packet_end"); return respond(c); }
 static int h_item(UChar *name, cif_value_tp *v, void *d) {
     pctx *c = d;
     if (c->log_handlers) { log_sep(c); ob_puts(&c->log, "[\"item\","); ob_jstr(&c->log, name); ob_putc(&c->log, ','); dump_value(&c->log, v); ob_putc(&c->log, ']'); }
+    query_cur_loop(c, "item");
     return respond(c);
 }
 static void syn(pctx *c, const char *ev, size_t line, size_t col, const UChar *tok, size_t len) {
